@@ -37,7 +37,9 @@ var (
 	tagMain  = log.RegisterTag("_c05_main")
 	tagOther = log.RegisterTag("_c05_other")
 	handle   = log.GetLogger("c05h")
-	console  = &vk.Capture{}
+	// "root" is a handle name like any other: the configured root logger, or the built-in one
+	rootHandle = log.GetLogger("root")
+	console    = &vk.Capture{}
 )
 
 // fdsInto returns the open descriptors of this process that point into dir.
@@ -301,6 +303,7 @@ type asyncCase struct {
 	EmptyRaw  bool // every fifth submission is a raw write with an empty payload (nil or zero-length)
 	Restart   bool // direct mode: the logger value went through a Start/Stop cycle before
 	SameName  bool // Refresh mode: the first file-owning appender has the same name as the logger (separate sections)
+	AsRoot    bool // Refresh mode: the logger under test is the configured root logger (its tag is listed by nobody)
 }
 
 type asyncPlain asyncCase
@@ -319,6 +322,7 @@ func genAsyncCase(t *rapid.T) asyncCase {
 		TwiceStop: rapid.Bool().Draw(t, "twice"),
 		EmptyRaw:  rapid.Bool().Draw(t, "emptyRaw"),
 		SameName:  rapid.Bool().Draw(t, "sameName"),
+		AsRoot:    rapid.IntRange(0, 2).Draw(t, "asRoot") == 0,
 		Restart:   rapid.IntRange(0, 2).Draw(t, "restart") == 0,
 	}
 	switch rapid.IntRange(0, 3).Draw(t, "occK") {
@@ -458,13 +462,28 @@ func runAsyncCase(c asyncCase, dir string) error {
 				m[fmt.Sprintf("logger.other.appenderRef[%d].ref", i+1)] = names[s]
 			}
 		}
+		h := handle
+		if c.AsRoot {
+			// the same logger under the name root: stopped like every other logger, before the appenders
+			for k, v := range m {
+				if rest, ok := strings.CutPrefix(k, "logger.c05h."); ok {
+					delete(m, k)
+					if rest != "tags" {
+						m["logger.root."+rest] = v
+					}
+				}
+			}
+			m["appender.stub.type"] = "Discard"
+			m["logger.c05h.type"], m["logger.c05h.tags"], m["logger.c05h.appenderRef.ref"] = "Logger", "_c05_stub", "stub"
+			h = rootHandle
+		}
 		if err := log.Refresh(m); err != nil {
 			log.Destroy()
 			return fmt.Errorf("Refresh rejected a valid configuration: %v", err)
 		}
 		submitEv = func(id int64) { log.Info(context.Background(), tagMain, log.Int("id", id)) }
-		submitRaw = func(id int64) { _, _ = handle.Write([]byte("id=" + strconv.FormatInt(id, 10) + "\n")) }
-		rawWrite = func(b []byte) { _, _ = handle.Write(b) }
+		submitRaw = func(id int64) { _, _ = h.Write([]byte("id=" + strconv.FormatInt(id, 10) + "\n")) }
+		rawWrite = func(b []byte) { _, _ = h.Write(b) }
 		stop = log.Destroy
 		stopApps = func(bool) any { return nil }
 	}
